@@ -31,6 +31,7 @@
  *   vs.findattr K FINDEX NAME              (FINDEX -1 = the Vdata itself)
  *   vg.create NAME                         new Vgroup -> ok slot
  *   vg.setattr K NAME NT COUNT DATA | vg.attrs K | vg.attrinfo K IDX | vg.findattr K NAME
+ *   vs.rsetattr / vs.rattrs / vs.rattrinfo / vs.rfindattr, vg.r...: the same calls on an object attached "r"
  *   unit.put ...          function-level correspondence on a bare NC_array attribute list (see below)
  */
 #include <stdio.h>
@@ -211,6 +212,12 @@ static void run_history(const char *dir, char **lines, long *lnos, long n)
             char m = tok[1][0];
             sd_mode = m;
             sd = SDstart(sdname, m == 'c' ? DFACC_CREATE : m == 'w' ? DFACC_RDWR : DFACC_READ);
+            if (sd != FAIL) {
+                /* variables that existed only in memory (a coordinate variable made by a query in a session that wrote
+                 * nothing) are gone: forget the refs remembered for them */
+                int32 nds = 0, nga = 0;
+                if (SDfileinfo(sd, &nds, &nga) != FAIL && nds < sdref_n) sdref_n = nds;
+            }
             if (sd == FAIL) FAILLN(); else OKLN("");
         }
         else if (!strcmp(op, "sd.end")) {
@@ -369,6 +376,17 @@ static void run_history(const char *dir, char **lines, long *lnos, long n)
             char k; int32 id = sd_obj(tok[1], &k);
             char  name[H4_MAX_NC_NAME + 1]; int32 size = 0, nt = 0, na;
             int r = id == FAIL ? FAIL : SDdiminfo(id, name, &size, &nt, &na);
+            if (r != FAIL && size == 0) {
+                /* unlimited dimension: the number of scale values is the current length of its coordinate variable */
+                int32 nds = 0, nga = 0;
+                SDfileinfo(sd, &nds, &nga);
+                for (int j = 0; j < nds; j++) {
+                    int32 v = SDselect(sd, j);
+                    char  vn[H4_MAX_NC_NAME + 1] = ""; int32 rk = 0, dm[H4_MAX_VAR_DIMS], vt = 0, va = 0;
+                    if (v != FAIL && SDiscoordvar(v) == TRUE && SDgetinfo(v, vn, &rk, dm, &vt, &va) != FAIL && rk == 1 && !strcmp(vn, name)) size = dm[0];
+                    if (v != FAIL) SDendaccess(v);
+                }
+            }
             long nb = (long)size * (nt ? ntsize(nt) : 4);
             unsigned char *b = calloc(nb > 0 ? nb : 1, 1);
             if (r != FAIL) r = SDgetdimscale(id, b);
@@ -539,7 +557,12 @@ static void run_history(const char *dir, char **lines, long *lnos, long n)
         }
         else if (!strncmp(op, "vs.", 3)) {
             int   k = atoi(tok[1]), fi = atoi(tok[2]);
-            int32 vs = (k >= 0 && k < nvs) ? VSattach(hf, vsrefs[k], h_mode == 'r' ? "r" : "w") : FAIL;
+            /* vs.rsetattr / vs.rattrs / vs.rattrinfo / vs.rfindattr: the same call on a Vdata attached "r" in a file
+             * that may be open for writing */
+            int   rd = !strcmp(op, "vs.rsetattr") || !strcmp(op, "vs.rattrs") || !strcmp(op, "vs.rattrinfo") || !strcmp(op, "vs.rfindattr");
+            char  opb[32];
+            if (rd) { snprintf(opb, sizeof opb, "vs.%s", op + 4); op = opb; }
+            int32 vs = (k >= 0 && k < nvs) ? VSattach(hf, vsrefs[k], (rd || h_mode == 'r') ? "r" : "w") : FAIL;
             if (vs == FAIL) { FAILLN(); continue; }
             if (!strcmp(op, "vs.setattr")) {
                 char *name = sarg(tok[3]);
@@ -599,7 +622,10 @@ static void run_history(const char *dir, char **lines, long *lnos, long n)
         }
         else if (!strncmp(op, "vg.", 3)) {
             int   k = atoi(tok[1]);
-            int32 vg = (k >= 0 && k < nvg) ? Vattach(hf, vgrefs[k], h_mode == 'r' ? "r" : "w") : FAIL;
+            int   rd = !strcmp(op, "vg.rsetattr") || !strcmp(op, "vg.rattrs") || !strcmp(op, "vg.rattrinfo") || !strcmp(op, "vg.rfindattr");
+            char  opb[32];
+            if (rd) { snprintf(opb, sizeof opb, "vg.%s", op + 4); op = opb; }
+            int32 vg = (k >= 0 && k < nvg) ? Vattach(hf, vgrefs[k], (rd || h_mode == 'r') ? "r" : "w") : FAIL;
             if (vg == FAIL) { FAILLN(); continue; }
             if (!strcmp(op, "vg.setattr")) {
                 char *name = sarg(tok[2]);
